@@ -589,6 +589,24 @@ func init() {
 		if (err == nil) != (err2 == nil) || (err == nil && (!bytes.Equal(v.Bytes(), v2.Bytes()) || !bytes.Equal(rem, rem2))) {
 			fails = append(fails, fail("C19", "twin:ReadSessionKey/NewSessionKey", "differ on %d bytes", len(w)))
 		}
+		if err == nil {
+			// the array constructor, the setter and the comparisons are further routes to the same value
+			var arr [32]byte
+			copy(arr[:], w[:32])
+			v3 := session_key.NewSessionKeyFromArray(arr)
+			var v4 session_key.SessionKey
+			serr := v4.SetBytes(w[:32])
+			if !bytes.Equal(v3.Bytes(), v.Bytes()) || serr != nil || !bytes.Equal(v4.Bytes(), v.Bytes()) || !v.Equal(v3) || !v3.Equal(v4) {
+				fails = append(fails, fail("C19", "twin:ReadSessionKey/FromArray/SetBytes", "the array constructor or SetBytes yields a different key"))
+			}
+			arr[31] ^= 1
+			if v.Equal(session_key.NewSessionKeyFromArray(arr)) {
+				fails = append(fails, fail("C19", "twin:ReadSessionKey/FromArray/SetBytes", "Equal ignores the last byte"))
+			}
+			if v4.SetBytes(w[:31]) == nil || (len(w) > 32 && v4.SetBytes(w[:33]) == nil) {
+				fails = append(fails, fail("C19", "twin:ReadSessionKey/FromArray/SetBytes", "SetBytes accepts a length ReadSessionKey/NewSessionKey would not produce"))
+			}
+		}
 		return okLine(res, false), fails
 	})
 	reg("!readSessionTag", func(a []string) (string, []Fail) {
@@ -619,6 +637,34 @@ func init() {
 		e2, erem2, eerr2 := session_tag.NewECIESSessionTag(w)
 		if (eerr1 == nil) != (eerr2 == nil) || (eerr1 == nil && (!bytes.Equal(e1.Bytes(), e2.Bytes()) || !bytes.Equal(erem1, erem2))) {
 			fails = append(fails, fail("C19", "twin:ReadECIESSessionTag/NewECIESSessionTag", "differ on %d bytes", len(w)))
+		}
+		if err == nil {
+			var arr [32]byte
+			copy(arr[:], w[:32])
+			v3 := session_tag.NewSessionTagFromArray(arr)
+			var v4 session_tag.SessionTag
+			serr := v4.SetBytes(w[:32])
+			if !bytes.Equal(v3.Bytes(), v.Bytes()) || serr != nil || !bytes.Equal(v4.Bytes(), v.Bytes()) || !v.Equal(v3) || !v3.Equal(v4) || v.Array() != arr {
+				fails = append(fails, fail("C19", "twin:ReadSessionTag/FromArray/SetBytes", "the array constructor, SetBytes or Array() yields a different tag"))
+			}
+			arr[31] ^= 1
+			if v.Equal(session_tag.NewSessionTagFromArray(arr)) {
+				fails = append(fails, fail("C19", "twin:ReadSessionTag/FromArray/SetBytes", "Equal ignores the last byte"))
+			}
+		}
+		if eerr1 == nil {
+			var arr [8]byte
+			copy(arr[:], w[:8])
+			e3 := session_tag.NewECIESSessionTagFromArray(arr)
+			var e4 session_tag.ECIESSessionTag
+			serr := e4.SetBytes(w[:8])
+			if !bytes.Equal(e3.Bytes(), e1.Bytes()) || serr != nil || !bytes.Equal(e4.Bytes(), e1.Bytes()) || !e1.Equal(e3) || !e3.Equal(e4) || e1.Array() != arr {
+				fails = append(fails, fail("C19", "twin:ReadECIESSessionTag/FromArray/SetBytes", "the array constructor, SetBytes or Array() yields a different tag"))
+			}
+			arr[7] ^= 1
+			if e1.Equal(session_tag.NewECIESSessionTagFromArray(arr)) {
+				fails = append(fails, fail("C19", "twin:ReadECIESSessionTag/FromArray/SetBytes", "Equal ignores the last byte"))
+			}
 		}
 		return okLine(res, false), fails
 	})
